@@ -35,7 +35,7 @@ def range_case(draw):
     n = draw(st.one_of(st.integers(0, 40), st.integers(0, 3000), st.integers(0, 3000), st.sampled_from([10000, 50000, 123456, 300000])))
     whole = draw(st.sampled_from([True, True, False]))
     phi = 0.0 if whole else draw(st.sampled_from([0.1, 0.25, 0.5, 0.75, 0.9]))
-    ctor = draw(st.sampled_from(["range_dim", "time_step", "time_samplerate", "frequency", "range_dim_size"]))
+    ctor = draw(st.sampled_from(["range_dim", "time_step", "time_samplerate", "frequency", "range_dim_size", "time_step_and_samplerate"]))
     return {"start": start, "step": step, "n": n, "phi": phi, "ctor": ctor}
 
 
@@ -53,6 +53,9 @@ def make_dim(spec):
         v = arrays.create_time_range(start_time=start, end_time=stop, step=step)
     elif c == "time_samplerate":
         v = arrays.create_time_range(start_time=start, end_time=stop, samplerate=1 / step)
+    elif c == "time_step_and_samplerate":
+        # both given (a spectrogram hop together with the audio samplerate): the documented rule is that the step takes precedence
+        v = arrays.create_time_range(start_time=start, end_time=stop, step=step, samplerate=44100 if step != 1 / 44100 else 8000)
     else:
         v = arrays.create_frequency_range(low_freq=start, high_freq=stop, step=step)
     return v, stop
@@ -60,7 +63,7 @@ def make_dim(spec):
 
 def check_range(spec, ctx):
     start, step, n, phi = spec["start"], spec["step"], spec["n"], spec["phi"]
-    if step <= 0 or n < 0 or spec["ctor"] not in ("range_dim", "time_step", "time_samplerate", "frequency", "range_dim_size"):
+    if step <= 0 or n < 0 or spec["ctor"] not in ("range_dim", "time_step", "time_samplerate", "frequency", "range_dim_size", "time_step_and_samplerate"):
         raise ValueError("malformed spec")
     stop = start + (n + phi) * step
     ratio = (stop - start) / step
